@@ -51,7 +51,7 @@ ASSUMPTIONS = [
     "CSV: scalars, lists and other non-series items are not exported (to_csv_file documents time series only); they are present in the box and must simply be ignored",
     "CSV: names are ASCII identifiers (never '*', never starting with '__', which the format reserves); descriptions contain no line breaks; nan_str is one of '', NaN, nan, NA, -, ., n/a, missing (a nan_str containing '#', the delimiter or a numeric literal cannot be read back by numpy.genfromtxt and is not generated)",
     "CSV: numeric_format, date_formatter/period_from_string pairs, csv_writer_settings/csv_reader_settings/numpy_reader_settings and name_row_transform are not exercised (numeric_format is accepted but unused by the implementation; not judged)",
-    "CSV: spans passed as span=/frequency_span= are contiguous forward spans; the description row is requested on both sides or on neither",
+    "CSV: span= is a forward span (any step), a backward span of step -1 or an increasing tuple of periods; frequency_span= entries are contiguous forward spans; start_period_only is only combined with consecutive forward rows; the description row is requested on both sides or on neither",
     "CSV: tolerance after round=r is 0.5*10**-r plus 8 ulp of the value; round=None must be exact",
     "Dataslate: periods are a contiguous forward span of the frequency of every requested series; items are series, real scalars or lists of real scalars; a series/list with fewer variants than num_variants repeats its last variant (library-wide convention, exhaust_then_last)",
     "Dataslate: clip_data_to_base_span is only combined with empty fallbacks/overwrites (their interplay is undocumented); output_names, validators and logly options are not exercised",
@@ -280,6 +280,14 @@ def _csv_case(draw):
             a = draw(_anchor(f))
         lo = a + draw(st.integers(-12, 12))
         sel = {"kind": "span", "f": f, "lo": lo, "hi": lo + draw(st.integers(0, 20))}
+        shape = draw(st.sampled_from(["contiguous", "contiguous", "step", "tuple", "backward"]))
+        if shape == "step":
+            sel["step"] = draw(st.integers(2, 4))
+        elif shape == "tuple":
+            # an explicit, possibly non-contiguous tuple of periods (increasing)
+            sel["picks"] = sorted(draw(st.lists(st.integers(0, sel["hi"] - lo), min_size=1, max_size=6, unique=True)))
+        elif shape == "backward":
+            sel["backward"] = True
     elif kind == "frequency_span":
         fs = draw(st.lists(st.sampled_from(some_f), min_size=1, max_size=3, unique=True))
         entries = []
@@ -351,6 +359,17 @@ def _csv_plan(case):
             ranges[sel["f"]] = u
     exported = [n for n in chosen if refs[n].f in ranges]
     return refs, order, chosen, ranges, exported
+
+
+def _span_member(sel, k):
+    """Is index k one of the periods of the span selection (stepped spans and explicit tuples are subsets of lo..hi)."""
+    if not sel or sel["kind"] != "span":
+        return True
+    if sel.get("step"):
+        return (k - sel["lo"]) % sel["step"] == 0
+    if sel.get("picks") is not None:
+        return (k - sel["lo"]) in sel["picks"]
+    return True
 
 
 def _classify_csv(case):
@@ -458,7 +477,16 @@ def _check_csv(case):
     sel = opts["sel"]
     if sel is not None:
         if sel["kind"] == "span":
-            wkw["span"] = span_of(sel["f"], sel["lo"], sel["hi"])
+            if sel.get("step"):
+                wkw["span"] = ir.Span(rs.period_at(sel["f"], sel["lo"]), rs.period_at(sel["f"], sel["hi"]), sel["step"])
+            elif sel.get("picks") is not None:
+                wkw["span"] = tuple(rs.period_at(sel["f"], sel["lo"] + k) for k in sel["picks"])
+            elif sel.get("backward"):
+                wkw["span"] = ir.Span(rs.period_at(sel["f"], sel["hi"]), rs.period_at(sel["f"], sel["lo"]), -1)
+            else:
+                wkw["span"] = span_of(sel["f"], sel["lo"], sel["hi"])
+            if sel.get("step") or sel.get("picks") is not None or sel.get("backward"):
+                rkw.pop("start_period_only", None)      # reading by the first period only presumes consecutive forward rows
         elif sel["kind"] == "frequency_span":
             fsp = {}
             for f, rng in sel["entries"]:
@@ -506,7 +534,7 @@ def _check_csv(case):
     for n in exported:
         ref = refs[n]
         lo, hi = ranges[ref.f]
-        exp[n] = rs.Ref(ref.f, ref.nv, {k: v for k, v in ref.cells.items() if lo <= k[0] <= hi})
+        exp[n] = rs.Ref(ref.f, ref.nv, {k: v for k, v in ref.cells.items() if lo <= k[0] <= hi and _span_member(sel, k[0])})
     judged = [n for n in exported if not exp[n].is_empty()]
     optional = [n for n in exported if exp[n].is_empty()]
     got_names = list(back.keys())
@@ -580,7 +608,9 @@ def _slate_case(draw):
             "fallbacks": [list(t) for t in fb], "overwrites": [list(t) for t in ow],
             "trim": draw(st.sampled_from([True, True, False])), "as_dict": draw(st.booleans()),
             "periods_as": draw(st.sampled_from(["span", "tuple"])), "base": base, "clip_base": clip_base,
-            "to_span": to_span, "descriptions": descriptions}
+            "to_span": to_span, "descriptions": descriptions,
+            # output_names: only these rows are written back by to_databox (None: all)
+            "output_names": draw(st.one_of(st.none(), st.none(), st.lists(st.sampled_from(likely), min_size=1, max_size=4, unique=True)))}
 
 
 def _slate_names(case):
@@ -614,6 +644,9 @@ def _classify_slate(case):
         nontrivial = True
     if case["base"] is not None:
         labels.append("base_columns" + ("_clip" if case["clip_base"] else "") + f"_{case['to_span']}")
+    if case.get("output_names") is not None:
+        keep = [k for k in names if k in case["output_names"]]
+        labels.append("output_names_leading_block" if keep == names[:len(keep)] else "output_names_scattered")
     return nontrivial, sorted(set(labels))
 
 
@@ -659,6 +692,10 @@ def _check_slate(case):
             kw["clip_data_to_base_span"] = True
     if case["descriptions"] is not None:
         kw["descriptions"] = list(case["descriptions"])
+    out_names = list(names)
+    if case.get("output_names") is not None:
+        kw["output_names"] = list(case["output_names"])
+        out_names = [k for k in names if k in case["output_names"]]
     source = dict(db) if case["as_dict"] else db
     ds = api("slate:from_databox", Dataslate.from_databox, source, None if case["names"] is None else list(names), periods, **kw)
     tkw = {}
@@ -669,7 +706,8 @@ def _check_slate(case):
     out = api("slate:to_databox", ds.to_databox, **tkw)
     for k in db.keys():
         col.check(_snap(db[k]) == before[k], "slate:input_modified", lambda: f"input item {k!r} changed")
-    col.check(sorted(out.keys()) == sorted(names), "slate:names", lambda: f"names {list(out.keys())}, requested {names}")
+    col.check(sorted(out.keys()) == sorted(out_names), "slate:names",
+              lambda: f"names {list(out.keys())}, requested {names}, output_names {case.get('output_names')}")
 
     # expected values
     out_lo, out_hi = lo, hi
